@@ -615,7 +615,7 @@ func verifH_CliBlocked() {
 	verifDrain()
 	// (phase 3: released although the same RPC's send is still stuck in the carrier - the end of an RPC does
 	// not wait for the peer or the transport)
-	verifAssert(returned, "C04+C05+C07.cli-blocked-call-is-released")
+	verifAssert(returned, "C03+C04+C05+C07.cli-blocked-call-is-released")
 	if phase == 3 {
 		verifCover("released-while-send-stuck-in-carrier")
 		close(stuck)
